@@ -25,6 +25,8 @@ func checkC01(p *Prog, r *Report) {
 	ruleC01Recursion(p, a, r)
 	ruleC01Reentry(p, a, r)
 	ruleC01UserMethods(p, a, r)
+	ruleC01Budget(p, a, r)
+	ruleC01Counters(p, a, r)
 	ruleDivisionGuards(p, a, r, "R-C01-D", false)
 	ruleC01Panics(p, a, r)
 	ruleResourceCaps(p, a, r, "R-C01-CAP")
